@@ -51,11 +51,38 @@ class _Sub(ast.NodeTransformer):
         return n
 
 
+def _module_consts(func):
+    """Module-level (and class-level) literal constants visible from func, as AST expressions: a table hoisted to
+    `_ENDIANNESS = {...}` is the same to a rule as the literal written in place."""
+    out = {}
+    mod = getattr(func, 'module', None)
+    if mod is None:
+        return out
+    srcs = [mod.consts]
+    for name, val in mod.consts.items():
+        pass
+    for name, val in mod.consts.items():
+        if not (name.startswith('_') and not name.startswith('__')):
+            continue              # public tables (numtypesdescr, readcodefunc ...) are referred to by name
+        if isinstance(val, (str, int, float, bool, tuple, list, dict, frozenset, set)) or val is None:
+            try:
+                out[name] = ast.parse(repr(val), mode='eval').body
+            except SyntaxError:
+                pass
+    return out
+
+
 def inline(func_or_node, expr, depth=6):
     fn = getattr(func_or_node, 'node', func_or_node)
     if expr is None:
         return None
-    return _Sub(_single_defs(fn), depth).visit(copy.deepcopy(expr))
+    defs = dict(_module_consts(func_or_node))
+    a = fn.args
+    shadow = {x.arg for x in a.args + a.kwonlyargs + a.posonlyargs} | \
+        {n.id for n in ast.walk(fn) if isinstance(n, ast.Name) and isinstance(n.ctx, ast.Store)}
+    defs = {k: v for k, v in defs.items() if k not in shadow}
+    defs.update(_single_defs(fn))
+    return _Sub(defs, depth).visit(copy.deepcopy(expr))
 
 
 def canon(func_or_node, expr, params=False):
